@@ -120,17 +120,32 @@ func capacityOf(kind string) uint64 {
 // controlC05: positive control — the rule's pattern must match a raw `+`
 // on a counter when there is one (the counts package itself contains it).
 func (c *Ctx) controlC05() {
-	plus := c.fn("/counts", "Count32", "Plus")
-	found := false
-	if plus != nil {
-		allInstrs(plus, func(in ssa.Instruction) {
-			if b, ok := in.(*ssa.BinOp); ok && b.Op == token.ADD && countKind(b.X.Type()) != "" {
-				found = true
+	// the raw-arithmetic pattern must match where raw arithmetic on counters
+	// legitimately lives: somewhere in package counts (directly on a counter
+	// or on a counter widened for the purpose)
+	found, any := false, false
+	for _, f := range c.ModFns {
+		if pkgOf(f) != modPath+"/counts" {
+			continue
+		}
+		any = true
+		allInstrs(f, func(in ssa.Instruction) {
+			b, ok := in.(*ssa.BinOp)
+			if !ok || (b.Op != token.ADD && b.Op != token.SUB) {
+				return
+			}
+			for _, op := range []ssa.Value{b.X, b.Y} {
+				if countKind(op.Type()) != "" {
+					found = true
+				}
+				if cv, isConv := op.(*ssa.Convert); isConv && countKind(cv.X.Type()) != "" {
+					found = true
+				}
 			}
 		})
 	}
-	if !found {
-		c.checkError("C05.discipline positive control: the raw-arithmetic pattern does not match the `n1 + n2` inside counts.Count32.Plus")
+	if any && !found {
+		c.notDecided("C05.discipline", "control", token.NoPos, "package counts contains no raw + or - on a counter any more (library arithmetic only): the positive control of the raw-arithmetic pattern has nothing to match")
 	}
 }
 
